@@ -31,6 +31,13 @@ CLAIMED = {
             "time average). Every run: double-ended fibres, rows/optimum/covariance/p_val/p_cov/tmpf/tmpb vs the model; with the "
             "solver replaced by a tagged stub every reduced parameter, variance and covariance must sit at its documented index.",
             NOTE + WLSNOTE + "With splices only the weighted SSR (estimable) is compared.", "§8 C02"),
+    "C03": ("Lean 4: exact-recovery theorem (normal equations + y = X p0 => fitted values, and parameters under full column rank) on the model's checked solve; noise-free end-to-end recovery over the option cross product",
+            "Proof: C03_recovery (from Theory.exact_recovery and the bridge), C03_temperature_at_fitted_row (gamma/(I+o) = K when "
+            "the row is reproduced), C03_matching_row, C03_match_pairing. Every run: noise-free Raman data x {single, double} x "
+            "{0,1,2 splices on/between grid points} x {references everywhere, front-only + matching} x {free, fix_gamma, fix_dalpha, "
+            "fix_alpha, fix_alpha+fix_gamma}: tmpf/tmpb/tmpw within 1e-5 K of the truth everywhere, gamma/dalpha recovered; same "
+            "data through the exact model.",
+            NOTE + WLSNOTE + "Identifiability is by construction of the generator and confirmed by the exact model's rank.", "§8 C03"),
     "C04": ("Lean 4: bijection of the documented layouts onto [0, npar) for all sizes + equation theorems; exhaustive layout/tagged-external correspondence and bit-exact external round trips",
             "Proof: C04_layout_partition_double / _single (every parameter has exactly one slot, for all nt, nx, nta), "
             "C04_model_columns_* (the model's columns are those slots; splice index = F-order reshape), C04_tmpf_equation_double, "
@@ -81,6 +88,20 @@ CLAIMED = {
             "stretches on the half-integer lattice of a 4-point grid, sampled 3-4 stretch layouts, random larger layouts; "
             "x_indices and broadcast reference rows compared exactly.",
             NOTE + "Grid strictly increasing; equal starts may be ordered either way by numpy (verdict insensitive).", "§8 C16"),
+    "C18": ("Lean 4: order-independence of the reference rows, translation/row-/column-permutation invariance of WLS, gain identities; pairs of real runs under each transformation",
+            "Proof: C18_dict_order (accepted definitions with the same stretches give the same reference rows), C18_gain_weight, "
+            "C18_gain_measurement_term, C18_gain_parameters (wls_translate), C18_row_order, C18_column_order. Every run: real "
+            "calibrations before/after dictionary/stretch re-ordering, renaming, a gain 1e-3..1e3 with variance x k^2, variance as "
+            "float/array/callable, removal of unreferenced locations, time permutation; repeated calls bit-identical; input dataset "
+            "deep-compared before/after.",
+            NOTE + "Bit-identity and non-mutation are runtime facts: observed, not proved.", "§8 C18"),
+    "C19": ("Lean 4: finite decision table over six IEEE classes (decide) for the guard chain; one-corruption-at-a-time differential correspondence",
+            "Proof: C19_refusal_table (every listed corruption x site is refused by the modelled guard chain), C19_valid_passes, "
+            "C19_finite_temperature. Every run: each intensity variable x reference location x {first, middle, last} time x {0, -1, "
+            "nan, +inf, -inf}; reference temperatures x {nan, +-inf}; variances x {nan, inf, negative} as float and as array "
+            "entry; short fix_alpha; transposed arrays; unknown method/solver: raise/return vs the model; finiteness of every "
+            "output where intensities are valid.",
+            NOTE + "The abstract class semantics of numpy are a model, validated row by row.", "§8 C19"),
     "C20": ("Lean 4 theorems on the model of ufunc_per_section_helper (selection, three orderings, row->bath map) + differential correspondence over modes x calc_per x backing",
             "Proof: C20_stretch_selects (exactly the in-range locations, ascending, once), C20_stretch_order, "
             "C20_section_order, C20_all_order (permutation sorted by start), C20_x_indices_ascending, C20_row_bath (the "
